@@ -186,12 +186,26 @@ def compare(out, df, a, keep_idx, sig, offset=None):
     tags = [int(round(v)) for v in got[:, IX["subtomo_mean"]]]
     if tags != list(keep_idx):
         if sorted(tags) == sorted(keep_idx):
-            out.fail(f"{sig}:survivor_order", f"{tags[:12]} vs {list(keep_idx)[:12]}")
+            # the statement fixes the surviving SET; lists are per-tomogram collections, so only the order of the survivors
+            # within each tomogram (their original order) is required - how tomograms follow each other is not
+            tomo_of = {i: a[i, IX["tomo_id"]] for i in keep_idx}
+            per_got, per_exp = {}, {}
+            for t_ in tags:
+                per_got.setdefault(tomo_of[t_], []).append(t_)
+            for t_ in keep_idx:
+                per_exp.setdefault(tomo_of[t_], []).append(t_)
+            if any(per_got[k_] != sorted(per_got[k_]) for k_ in per_got):
+                out.fail(f"{sig}:survivor_order", f"{tags[:12]} vs {list(keep_idx)[:12]}")
+                return False
+            out.label(f"{sig}:tomograms_in_other_order_than_the_model")
+            pos_ = {t_: i_ for i_, t_ in enumerate(tags)}
+            got = got[[pos_[t_] for t_ in keep_idx]]
+            tags = list(keep_idx)
         else:
             extra = sorted(set(tags) - set(keep_idx))
             missing = sorted(set(keep_idx) - set(tags))
             out.fail(f"{sig}:survivor_set", f"kept but should be removed: rows {extra[:8]}; removed but should be kept: rows {missing[:8]}")
-        return False
+            return False
     exp = a[list(keep_idx)].copy()
     if offset is not None:
         exp[:, [IX["x"], IX["y"], IX["z"]]] -= offset
